@@ -29,8 +29,19 @@ Triage notes (what was changed after the first runs, and why):
   * failure details carry identifier-named fields for the known-finding matcher: mode, root, classes, exc, at, step,
     msg, pack, rows_calc (next to expr, enc, size, focus, clause, why, sizing, canvas, cursor).
 
-A *tree* is a Python expression over the urwid namespace (plus three builders defined here:
-`bar_graph`, `list_box`, `tree_list_box`), so every failure detail carries a copy-and-paste reproduction.
+Strengthening notes (after seeded changes C01-a1 / C01-a2 went undetected; bounds added, oracle unchanged):
+  * GraphVScale: labels that wrap onto several rows at the narrow widths of the scope (multi-word, multi-line, wide,
+    zero-width, bytes, markup) at low / middle / high positions of the scale (`GRAPH_LABELS`), so that a label runs past
+    the bottom edge or over the next label; family GraphScale: the scale beside its BarGraph in Columns at given
+    widths 1..3 and at container-decided heights 2..7 (BoxAdapter, Pile, LineBox).
+  * ('weight', 0, w) items in every tier (were thorough-only): families Pile-weight0 / Columns-weight0 -- every pool
+    child in a zero-weight slot alone, before/after each SECOND item, between a weighted and a packed flow item; they
+    also enter the depth-3 sample.  rows() vs render vs pack for flow / box / fixed Piles and Columns.
+  * ProgressBar-text: the documented get_text() override with ASCII texts longer than the widths (builder
+    `progress_text`); non-ASCII / multi-line ones are INFORMATIONAL (a subclass, beyond "bundled widgets").
+
+A *tree* is a Python expression over the urwid namespace (plus four builders defined here:
+`bar_graph`, `list_box`, `tree_list_box`, `progress_text`), so every failure detail carries a copy-and-paste reproduction.
 Each evaluation builds a fresh widget (no history: ListBox/Scrollable/Edit keep scroll state), sets the
 encoding, clears the canvas cache, and restores both afterwards.
 
@@ -91,6 +102,24 @@ def bar_graph(data, top, hlines=None, bar_width=None, nseg=1, satt=None):
     return g
 
 
+class _TextBar(urwid.ProgressBar):
+    """ProgressBar with the documented extension point used: "get_text ... You can override this method to display
+    custom text" (urwid/widget/progress_bar.py)."""
+
+    def __init__(self, text, *args, **kwargs):
+        self._custom_text = text
+        super().__init__(*args, **kwargs)
+
+    def get_text(self):
+        return self._custom_text
+
+
+def progress_text(text, current=50, done=100, satt=None, align="center"):
+    bar = _TextBar(text, "n", "c", current, done, satt)
+    bar.text_align = align  # public class attribute (Align.CENTER by default)
+    return bar
+
+
 def list_box(items, focus=None, valign=None, walker="focus"):
     body = urwid.SimpleFocusListWalker(items) if walker == "focus" else urwid.SimpleListWalker(items)
     lb = urwid.ListBox(body)
@@ -130,7 +159,7 @@ def _namespace():
     ns = {n: v for n, v in vars(urwid).items() if not n.startswith("_")}  # vars(): no deprecated lazy attributes
     from urwid.numedit import FloatEdit, IntegerEdit
 
-    ns.update(FloatEdit=FloatEdit, IntegerEdit=IntegerEdit, bar_graph=bar_graph, list_box=list_box, tree_list_box=tree_list_box)
+    ns.update(FloatEdit=FloatEdit, IntegerEdit=IntegerEdit, bar_graph=bar_graph, list_box=list_box, tree_list_box=tree_list_box, progress_text=progress_text)
     return ns
 
 
@@ -637,6 +666,19 @@ def one_column(ch):
     return len(ch) == 1 and own_char_width(ch) == 1
 
 
+GRAPH_LABELS = (
+    "[]",
+    "[(1, 'a')]",
+    "[(5, '5'), (2, '中'), (0, '0')]",
+    "[(9, 'toolong')]",
+    "[(1, 'ab cd ef')]",  # wraps at widths < 8, drawn in the last rows
+    "[(8, 'top'), (1, 'ten percent')]",
+    "[(4, 'a\\nb\\nc'), (3, 'x'), (1, 'yz')]",  # a multi-line label covering the positions of the next ones
+    "[(2, '中文字'), (1, 'x')]",
+    "[(3, 'e\\u0301e\\u0301 x'), (0.5, b'ab cd')]",
+    "[(1, [('x', 'ab'), ' cd'])]",
+    "[(4, 'abcdefgh'), (2, 'ab cd')]",
+)
 WRAPS = ("space", "any", "clip", "ellipsis")
 ALIGNS = ("left", "center", "right")
 FONTS = ("Thin3x3Font", "Thin4x3Font", "Thin6x6Font", "HalfBlock5x4Font", "HalfBlock6x5Font", "HalfBlockHeavy6x5Font", "HalfBlock7x7Font", "Sextant2x2Font", "Sextant3x3Font")
@@ -676,7 +718,17 @@ def leaves(enc, mode, thorough):
         for top in (1, 5, 9)
         for o in _kw(hlines=(..., [1], [4, 2]) if thorough else (..., [4, 2]), bar_width=(..., 1, 2, 7) if thorough else (..., 1, 2), satt=(..., {(1, 0): "x"}))
     ]
-    fam["GraphVScale"] = [f"GraphVScale({lab}, {top})" for lab in ("[]", "[(1, 'a')]", "[(5, '5'), (2, '中'), (0, '0')]", "[(9, 'toolong')]") for top in (1, 5, 9)]
+    # Strengthened (seed C01-a1): labels are Text widgets rendered at the scale's width, so a label *wraps* at the narrow
+    # widths of the scope; a label near the bottom then runs past the last row (render must cut it), a label in the
+    # middle runs over the positions of the labels below it (they are skipped).  Added: multi-word, multi-line, wide,
+    # zero-width, bytes and markup labels at low / middle / high positions (the documented range is 0 < position < top;
+    # the first generator only had one-row labels inside the range, and 'toolong' sat at position == top, never drawn).
+    fam["GraphVScale"] = [f"GraphVScale({lab}, {top})" for lab in GRAPH_LABELS for top in (1, 5, 9)]
+    # ProgressBar's text is "NN %" unless get_text() is overridden ("You can override this method to display custom
+    # text"): ASCII custom texts longer than the narrow widths (clipped) here; non-ASCII / multi-line ones in their own
+    # family, see INFORMATIONAL
+    fam["ProgressBar-text"] = [f"progress_text({t}, {cur}, 100{o})" for t in ("''", "'Did 3 of 10'", "'ab'") for cur in (0, 33, 100) for o in _kw(satt=(..., "s"), align=(..., "left"))]
+    fam["ProgressBar-text-nonascii"] = [f"progress_text({t}, {cur}, 100{o})" for t in ("'中文字'", "'e\\u0301x'", "'a\\nb'") for cur in (0, 33, 100) for o in _kw(satt=(..., "s"))]
     fam["TreeListBox"] = [f"tree_list_box({lab}, {k}, {d})" for lab in ("'r'", "'中'", "'abcdefg'") for k in (0, 1, 3) for d in (0, 1, 2) if thorough or not (k == 3 and d == 2 and lab != "'r'")]  # triage: the 13-node trees once per quick run (run time)
     return fam
 
@@ -836,6 +888,28 @@ def containers(children, flow_children, box_children, lvl):
         fam["Columns"] += [f"Columns([{b}, {a}]{o}, focus_column=1)" for a in items for b in SECOND for o in _kw(dividechars=(..., 3), box_columns=(..., [1]), min_width=(..., 3))]
         fam["Columns"] += [f"Columns([{a}, {b}]{copts[i % len(copts)]})" for i, (a, b) in enumerate(xpairs)] + [f"Columns([{b}, {a}]{copts[i % len(copts)]})" for i, (a, b) in enumerate(xpairs)]
         fam["Columns3"] = [f"Columns([{a}, {b}, {c}], dividechars={i % 2})" for i, (a, b, c) in enumerate(triples)]
+    # Strengthened (seed C01-a2): ('weight', 0, w) items.  The first generator had them in the thorough tier only (inside
+    # the Pile/Columns products); they are the option value for which Pile and Columns have separately coded paths
+    # (rows()/get_item_rows vs get_rows_sizes/render vs the fixed-size calculations: "zero-weighted items treated as
+    # ('given', 0)" in a box Pile, "the same as ('pack', widget)" in a flow Pile, a hidden column in Columns), so every
+    # tier now has its own families: every pool child in a zero-weight slot, alone, before and after each SECOND
+    # item (pack / given / weight / fixed / cursor neighbours), and between a weighted and a packed flow item.
+    Z = [f"('weight', 0, {c})" for c in (C if lvl else C[:2] + C[4:7])]
+    second = SECOND if lvl else SECOND[:3]
+    zpairs = [(a, b) for a in Z for b in second]
+    fam["Pile-weight0"] = [f"Pile([{a}])" for a in Z] + [f"Pile([{a}, {b}])" for a, b in zpairs] + [f"Pile([{b}, {a}], focus_item=1)" for a, b in zpairs[:: 2 if lvl else 3]]
+    fam["Columns-weight0"] = [f"Columns([{a}])" for a in Z] + [f"Columns([{a}, {b}]{copts[i % len(copts)]})" for i, (a, b) in enumerate(zpairs)]
+    fam["Columns-weight0"] += [f"Columns([{b}, {a}]{copts[(i + 1) % len(copts)]})" for i, (a, b) in enumerate(zpairs[:: 2 if lvl else 3])]
+    if lvl:
+        fam["Pile-weight0"] += [f"Pile([('weight', 2, Text('ab cd')), {a}, ('pack', Edit('c', 'ab'))])" for a in Z] + [f"Pile([{a}, ('weight', 0, Text('ab cd')), Text('a中b', wrap='any')])" for a in Z]
+        fam["Columns-weight0"] += [f"Columns([('weight', 2, Text('ab cd')), {a}, ('pack', Edit('c', 'ab'))], dividechars={i % 2})" for i, a in enumerate(Z)]
+    # GraphVScale next to the BarGraph it belongs to and at heights its container decides (beyond the leaf sizes):
+    # wrapping labels at the narrow given widths, scale heights 1..7
+    if lvl:
+        gl = GRAPH_LABELS[4:] if lvl == 1 else GRAPH_LABELS
+        fam["GraphScale"] = [f"Columns([({w}, GraphVScale({lab}, 9)), bar_graph([[1], [5], [9]], 9, [4, 2])]{o})" for lab in gl for w, o in ((1, ""), (2, ", dividechars=1"), (3, ""))]
+        fam["GraphScale"] += [f"BoxAdapter(GraphVScale({lab}, {top}), {h})" for lab in gl for top, h in ((9, 5), (5, 7), (9, 6) if lvl == 2 else (1, 2))]
+        fam["GraphScale"] += [f"Pile([({h}, GraphVScale({lab}, 9)), Text('ab cd')])" for lab in gl for h in (2, 5)] + [f"LineBox(GraphVScale({lab}, 5))" for lab in gl]
     F = list(flow_children)
     cells = [[]] + [[a] for a in F] + [[a, b] for a in F for b in F[: 2 if lvl == 2 else 1]] + [[F[0], a, F[0], a, F[0]] for a in F[:4]]
     galign = ("left", "center", "right", ("relative", 30))
@@ -950,6 +1024,11 @@ INFORMATIONAL = {
     "(a child in a slot whose sizing mode it does not report -- a usage error, mostly answered with a Pile/Columns/OverlayWarning); "
     "the statement quantifies over documented option values only",
 }
+# Strengthening (sC01): a ProgressBar *subclass* overriding get_text() with non-ASCII / multi-line text is beyond "widget
+# trees built from the bundled widgets" (the bundled text is always "NN %"); what it shows on the unchanged tree
+# (attribute runs counted in columns against text in bytes; a two-row canvas from a flow widget whose rows() is 1) is
+# reported as an observation.  The ASCII custom texts (family ProgressBar-text) are judged by the main checks.
+INFORMATIONAL.update({f"C01/{c}/ProgressBar-text-nonascii": "a ProgressBar subclass (get_text overridden) with non-ASCII / multi-line text: beyond the statement's 'bundled widgets'" for c in CLAUSES})
 REPORT_ILLFORMED = True  # set to False to drop the auxiliary (literal-reading) check from the results
 
 
@@ -1031,7 +1110,7 @@ def _task(args):
 
 # Triage: Frame, Scrollable and TreeListBox added (run time of the quick tier only: they are the next most expensive families and,
 # like the others, are built from ASCII children whose rendering does not depend on the encoding; UTF-8 stays complete)
-BIG = ("Pile", "Pile3", "Columns", "Columns3", "Overlay", "Padding", "Filler", "GridFlow", "ListBox", "LineBox", "BarGraph", "Edit", "Frame", "Scrollable", "TreeListBox")
+BIG = ("Pile", "Pile3", "Columns", "Columns3", "Pile-weight0", "Columns-weight0", "Overlay", "Padding", "Filler", "GridFlow", "ListBox", "LineBox", "BarGraph", "Edit", "Frame", "Scrollable", "TreeListBox")
 
 
 def _bounds(tier):
